@@ -263,6 +263,7 @@ fn main() {
             let Some((url, src, _ty, _)) = clean_request(&mut r, &lines) else { continue };
             let ty = r.pick(&["script", "document", "subdocument", "image", "xhr"]);
             let Ok(req) = Request::new(&url, &src, ty) else { continue };
+            register_request(&req, &url, &src, ty);
             sm.oracle_evaluations += 1;
             let opsj: Vec<Value> = ops.iter().map(op_json).collect();
             let (mr, fc) = if r.chance(1, 3) { (r.chance(1, 2), r.chance(1, 2)) } else { (false, false) };
